@@ -1329,3 +1329,61 @@ pub fn lane_cram_sizes(seed: u64) -> Vec<Scenario> {
     }
     out
 }
+
+/// C18 / C20: scrut cannot create one of its directories or temporary files (disk full, no
+/// permission) - at every hooked site, for the first and for a later document
+pub fn lane_fs_faults(seed: u64) -> Vec<Scenario> {
+    let mut out = vec![];
+    let mut g = G::new(seed ^ 0xf5fa);
+    let sites = [
+        ("env:work", "tmp"),
+        ("env:tmp-in-work", "tmp"),
+        ("env:document-dir", "tmp"),
+        ("env:temp-in-work", "work"),
+        ("env:kept-work", "keep"),
+        ("env:kept-temp", "keep"),
+        ("env:document-dir", "keep"),
+        ("exec:state-dir", "tmp"),
+        ("exec:state-dir", "work"),
+        ("exec:detached-stdin", "tmp"),
+    ];
+    for (site, dirmode) in sites {
+        for nth in [0u32, 1] {
+            for errno in [28i32, 13] {
+                for fmt in ["md", "cram"] {
+                    if fmt == "cram" && site.starts_with("exec:") {
+                        continue;
+                    }
+                    let mut sim = base_sim(g.rng.next_u64());
+                    sim.faults.push(Fault::Fs { site: site.to_string(), nth, errno });
+                    let (f, ext) = if fmt == "cram" { (Format::Cram, "t") } else { (Format::Md, "md") };
+                    let mut docs = vec![];
+                    for k in 0..3 {
+                        let mut plans = vec![Plan::new(Fate::Pass), if k == 0 { Plan::new(Fate::WrongOutput) } else { Plan::new(Fate::Pass) }];
+                        if site == "exec:detached-stdin" && f == Format::Md {
+                            plans.insert(1, Plan::new(Fate::Detached));
+                        }
+                        let tests = plans.iter().map(|p| g.test(p, &mut sim.programs)).collect();
+                        docs.push(doc(&format!("fs/doc{}.{}", k, ext), f, tests));
+                    }
+                    let mut cli = Cli::default();
+                    cli.work_directory = dirmode == "work";
+                    cli.keep_tmp = dirmode == "keep";
+                    let mut sc = Scenario {
+                        lane: format!("fs-faults/{}/{}/nth{}/e{}/{}", site, dirmode, nth, errno, fmt),
+                        tier: Tier::Cli,
+                        script_mode: false,
+                        docs,
+                        cli,
+                        sim,
+                        pretty: false,
+                        check: vec!["C18".into(), "C20".into(), "C05".into()],
+                    };
+                    fill_expectations(&mut sc, &mut g);
+                    out.push(sc);
+                }
+            }
+        }
+    }
+    out
+}
